@@ -17,7 +17,7 @@ RULE = ("hash clause: EVERY byte length 0..1024 x {zeros, ff, counter, random} (
         "(1, 2, n-1, both parities, x with leading zero bytes from a committed corpus, random) x {mainnet,testnet} x five "
         "kinds + compressed/uncompressed P2PKH, each decoded by the independent Base58Check/Bech32 decoder; distinct = distinct "
         "(monitor, case) digests"
-        " EXTENSIONS: + committed corpus of inputs driving RIPEMD-160 through all-ones / zero internal words, key objects parsed from compressed / uncompressed / hybrid / raw SEC, both forms asked twice in either order, leading-zero Y corpus")
+        " EXTENSIONS: + committed corpus of inputs driving RIPEMD-160 through all-ones / zero internal words, key objects parsed from compressed / uncompressed / hybrid / raw SEC, both forms asked twice in either order, leading-zero Y corpus, every scalar corner enumerated, the address column of wallet listings of K+3 rows per harvested threshold K and purpose")
 LEVEL_TEXT = ("Each address string produced by the five BaseWallet.*_address methods, PublicKey.address and the h160/h256 "
               "helpers is decoded with an independent decoder and compared with version byte / hrp+witness version and the "
               "HASH160 / SHA-256 of the key or standard script computed by the reference model; script builders are compared "
@@ -293,7 +293,7 @@ def run(ctx):
             judge_hash_len(ctx, {"msg": sha256(msg), "pat": "rare-direct:" + ev})     # (the same block fed to ripemd160 directly)
     inst = install_probes(ctx)
     try:
-        corner = [("k=1", 1), ("k=2", 2), ("k=n-1", secp.N - 1)] + [("K:x-leading-zero", k) for k in lzx]
+        corner = gen.scalar_corners() + [("K:x-leading-zero", k) for k in lzx]
         for tag, k in corner:
             for tn in (False, True):
                 for kind in KINDS:
@@ -326,6 +326,66 @@ def run(ctx):
             judge_script_template(ctx, {"h160": b"\x00" * z + gen.rbytes(rnd, 20 - z), "h256": gen.rbytes(rnd, 32)})
     finally:
         inst.remove()
+    # the address column of ONE wallet listing of K+3 rows for every threshold K written down in the code under test
+    # (vpkg.harvest / vpkg.longrun; fast mode, see c06.huge_listing_rows): every sampled row carries the address kind of its
+    # section (BIP44 P2PKH, BIP49 P2SH-P2WPKH, BIP84 P2WPKH) for the key printed in the same row
+    from .. import longrun
+    job = 0
+    for k, z in longrun.lengths(ctx, wide=False):
+        if z <= 4100:
+            continue
+        for purpose in (49, 44, 84):
+            job += 1
+            if not ctx.mine_once(job + 3) or not longrun.affordable(ctx, "wallet", z, budget_quick=45.0, k=k):
+                continue
+            judge_listing_addresses(ctx, {"route": "from_bip39_seed_bytes", "seed": gen.rbytes(rnd, 32), "testnet": bool((job + ctx.seed) & 1),
+                                          "purpose_listed": purpose, "account": 0, "start": rnd.choice([0, 11]), "n": z, "k": k})
+    ctx.extra["harvested_thresholds"] = longrun.thresholds()
+    # K+3 distinct requests, then a second look at the earliest answers (vpkg.longrun.ask_again), K every harvested threshold
+    longrun.histories(ctx, "history", "C05", history_specs(), first_job=5)
+
+
+def history_specs():
+    import btc_hd_wallet.helper as helper
+    import hashlib as _hl
+
+    def msg(j):
+        return b"vp-c05-" + j.to_bytes(5, "big") * (1 + j % 3)
+
+    def h160(j):
+        return _hl.sha256(msg(j)).digest()[:20]
+    return [
+        ("hash160", helper.hash160, lambda j: (msg(j), ripemd160_fast(sha256(msg(j))))),
+        ("sha256", helper.sha256, lambda j: (msg(j), sha256(msg(j)))),
+        ("h160_to_p2pkh_address", helper.h160_to_p2pkh_address, lambda j: (h160(j), rb58.encode_check(b"\x00" + h160(j)))),
+        ("h160_to_p2sh_address", helper.h160_to_p2sh_address, lambda j: (h160(j), rb58.encode_check(b"\x05" + h160(j)))),
+        ("h160_to_p2wpkh_address", helper.h160_to_p2wpkh_address, lambda j: (h160(j), rbech.segwit_encode("bc", 0, h160(j)))),
+    ]
+
+
+def judge_listing_addresses(ctx, case):
+    from .c06 import huge_listing_rows
+    from ..ref import paper as rpaper
+    try:
+        w, tn, keys, rows = huge_listing_rows(case)
+    except Exception as ex:  # noqa
+        return ctx.judge("listing_addresses", False, case, "%d rows" % case["n"], ex, cls="listing|raised", mech="C05.listing.raised")
+    n, k, purpose = case["n"], case["k"], case["purpose_listed"]
+    want = raddr.KINDS[rpaper.ADDR_KIND[purpose]]
+    bad, seen = [], 0
+    for j, row in enumerate(rows):
+        if j % 61 == 0 or j > len(rows) - 4 or (k and (j % k) in (0, 1, 2, k - 1, k - 2)):
+            seen += 1
+            try:
+                exp = want(bytes.fromhex(row[2]), tn)
+            except Exception as ex:  # noqa
+                exp = repr(ex)
+            if row[1] != exp:
+                bad.append((j, exp, row[1]))
+                break
+    ctx.extra["listing_rows_decoded"] = ctx.extra.get("listing_rows_decoded", 0) + seen
+    return ctx.judge("listing_addresses", not bad and seen > 0, case, None, bad[:2], cls="listing|bip%d|n%d|%s" % (purpose, n, "test" if tn else "main"),
+                     mech="C05.listing.address_kind")
 
 
 def replay(ctx, monitor, case):
@@ -339,5 +399,12 @@ def replay(ctx, monitor, case):
         judge_shared_wallet(ctx, case)
     elif monitor == "pubkey_address":
         judge_pubkey_address(ctx, case)
+    elif monitor == "listing_addresses":
+        judge_listing_addresses(ctx, case)
+    elif monitor == "history":
+        from .. import longrun
+        for name, fn, make in history_specs():
+            if name == case["function"]:
+                longrun.ask_again(ctx, "history", "C05", name, fn, make, case["n"], case["k"])
     else:
         judge_script_template(ctx, case)
